@@ -1,7 +1,7 @@
 """C16 - honeywords are drawn from the grammar with the grammar's probabilities (DESIGN section 4, C16)."""
 import ast
 
-from ..core import (U, walk_local, calls_in, call_name, const, NOCONST, params, stores_in, single_def, expand,
+from ..core import (TU, U, walk_local, calls_in, call_name, const, NOCONST, params, stores_in, single_def, expand,
                     walk_stmts, arg_for, kwarg, path_conditions, enclosing_stmt_chain, dotted)
 from ..cfg import CFG
 from ..effects import nondet_source
@@ -97,7 +97,8 @@ def r1_walk_weights(ctx, rule):
     iters = [U(l.iter) for l in loops]
     facts['loops'] = iters
     need = ['self.base', "item['replacements']", "enumerate(pt_item['pt'])", 'range(0, max_index)']
-    if sorted(iters) != sorted(need) or "max_index = len(self.grammar[pt_type])" not in U(fn):
+    stmt_texts = {U(s_) for s_ in walk_stmts(fn.body) if isinstance(s_, ast.Assign)}
+    if sorted(iters) != sorted(need) or "max_index = len(self.grammar[pt_type])" not in stmt_texts:
         # other spellings of "every element of the table": for x in T / for i, x in enumerate(T) / for i in range(len(T))
         def covers(tbl):
             for l in loops:
@@ -130,7 +131,7 @@ def r1_walk_weights(ctx, rule):
                     and U(l.target.elts[1].elts[0]) == t and U(l.iter) == "enumerate(pt_item['pt'])":
                 return True
         return any(v in ('item[0]', "pt_item['pt'][%s][0]" % pos) for v in (t, x)) or \
-            (t == 'pt_type' and any(w in U(fn) for w in ("pt_type = item[0]", "pt_type = pt_item['pt'][%s][0]" % pos)))
+            (t == 'pt_type' and any(w in TU(fn) for w in ("pt_type = item[0]", "pt_type = pt_item['pt'][%s][0]" % pos)))
     sel_ok = len(sel) == 1 and isinstance(sel[0].value, ast.Tuple) and len(sel[0].value.elts) == 2 and type_of_position(sel[0].value.elts[0])
     if not sel_ok:
         ok = False
@@ -139,7 +140,7 @@ def r1_walk_weights(ctx, rule):
         if not t.body or not isinstance(t.body[-1], ast.Break):
             ok = False
             ctx.bad(rule, RW, 'selection does not stop at the first hit', 'later items would overwrite the selection', facts, t)
-    if "pt_item['prob'] = self._find_prob(pt_item['pt'], pt_item['base_prob'])" not in U(fn):
+    if "pt_item['prob'] = self._find_prob(pt_item['pt'], pt_item['base_prob'])" not in TU(fn):
         ok = False
         ctx.bad(rule, RW, 'walk probability', 'prob = _find_prob(pt, base_prob)', facts, fn)
     if ok:
